@@ -1,4 +1,366 @@
-/-! placeholder, replaced by the lifecycle LTS theorems -/
-namespace CentrifugeVerif.C08Stub
-theorem stub : True := trivial
-end CentrifugeVerif.C08Stub
+import CentrifugeVerif.Model.ConnProtoLifecycle
+/-!
+# C08 — connection lifecycle callbacks fire once and in order; shutdown
+
+Model: `Model/ConnProtoLifecycle.lean` (one connection; connect thread, any number of racing
+`close` / `unsubscribe` / presence-tick / subscribe calls, `Node.Shutdown`).  All theorems quantify
+over every finite label sequence, i.e. over every interleaving.
+-/
+namespace CentrifugeVerif.Lifecycle
+
+theorem scan_append (log : List Ev) (e : Ev) : scan (log ++ [e]) = scanStep (scan log) e := by
+  simp [scan, List.foldl_append]
+
+def wEarly : WPC → Bool
+  | .none => true
+  | .holdConnect _ _ => true
+  | _ => false
+
+def wPrev : WPC → Bool
+  | .holdConnect p _ => p
+  | .holdBoth p _ _ => p
+  | _ => false
+
+structure Inv (s : St) : Prop where
+  ok : (scan s.log).ok = true
+  cs : (scan s.log).seenCS = true ↔ (s.cpc = .inCb ∨ s.cpc = .doneRan)
+  ce : (scan s.log).seenCE = true ↔ s.cpc = .doneRan
+  ds : (scan s.log).seenDS = true ↔ (s.w = .inDisc ∨ s.w = .done true)
+  reg : s.registered = true ↔ (s.cpc = .inCb ∨ s.cpc = .doneRan)
+  closed : s.status = .closed ↔ s.w ≠ .none
+  conn : s.status = .connected → s.cpc = .doneRan
+  incb : s.cpc = .inCb → s.status = .connecting
+  prev : wPrev s.w = true → s.cpc = .doneRan
+  tk : s.tick ≠ .none → wEarly s.w = true
+  tkreg : s.tick = .inAlive → s.registered = true
+
+theorem inv_init : Inv {} := by
+  constructor <;> simp [scan, wPrev, wEarly]
+
+theorem step_inv (s s' : St) (l : Label) (h : Inv s) (hs : step s l = some s') : Inv s' := by
+  obtain ⟨hok, hcs, hce, hds, hreg, hcl, hconn, hincb, hprev, htk, htkreg⟩ := h
+  cases l <;> simp only [step] at hs
+  case connectCmdOk k =>
+    split at hs <;> cases hs
+    rename_i hc; simp at hc
+    constructor <;> simp_all [wPrev, wEarly]
+  case triggerAcquire =>
+    split at hs
+    · rename_i hc; simp [connectMuFree] at hc
+      split at hs <;> cases hs
+      · constructor <;> simp_all [scan_append, scanStep, wPrev, wEarly]
+      · constructor <;> simp_all [wPrev, wEarly]
+    · cases hs
+  case triggerEnd =>
+    split at hs <;> cases hs
+    rename_i hc
+    have hst := hincb hc
+    have hw : s.w = .none := by
+      by_cases hw : s.w = .none
+      · exact hw
+      · have := hcl.mpr hw; simp [hst] at this
+    constructor <;> simp_all [scan_append, scanStep, wPrev, wEarly]
+  case subscribe =>
+    split at hs <;> cases hs
+    constructor <;> simp_all
+  case closeTry =>
+    split at hs
+    · rename_i hc; simp [connectMuFree] at hc
+      split at hs <;> cases hs
+      · constructor <;> simp_all
+      · rename_i hncl
+        have hw : s.w = .none := by
+          by_cases hw : s.w = .none
+          · exact hw
+          · exact absurd (hcl.mpr hw) hncl
+        constructor <;> simp_all [wPrev, wEarly]
+    · cases hs
+  case wAcquirePresence =>
+    split at hs
+    · split at hs <;> cases hs
+      rename_i p snap hw hc
+      simp [presenceMuFree] at hc
+      constructor <;> simp_all [wPrev, wEarly]
+    · cases hs
+  case wRemove =>
+    split at hs
+    · split at hs <;> cases hs <;> (constructor <;> simp_all [wPrev, wEarly])
+    · cases hs
+  case wCb =>
+    split at hs
+    · cases hs
+      rename_i p snap n hw
+      by_cases hr : s.registered = true
+      · have hcs' := hcs.mpr (hreg.mp hr)
+        constructor <;> simp_all [scan_append, scanStep, wPrev, wEarly]
+      · constructor <;> simp_all [wPrev, wEarly]
+    · cases hs
+  case wDisc =>
+    split at hs
+    · rename_i p hw
+      split at hs <;> cases hs
+      · rename_i hp
+        have hdr : s.cpc = .doneRan := hprev (by simp [hw, wPrev, hp])
+        have hce' := hce.mpr hdr
+        have hnds : (scan s.log).seenDS = false := by
+          cases hd : (scan s.log).seenDS
+          · rfl
+          · have := hds.mp hd; simp [hw] at this
+        constructor <;> simp_all [scan_append, scanStep, wPrev, wEarly]
+      · constructor <;> simp_all [wPrev, wEarly]
+    · cases hs
+  case wDiscEnd =>
+    split at hs
+    · cases hs
+      rename_i hw
+      have hd := hds.mpr (Or.inl hw)
+      constructor <;> simp_all [scan_append, scanStep, wPrev, wEarly]
+    · cases hs
+  case unsubRemove n =>
+    split at hs <;> cases hs <;> (constructor <;> simp_all)
+  case unsubCb n =>
+    split at hs <;> cases hs
+    by_cases hr : s.registered = true
+    · have hcs' := hcs.mpr (hreg.mp hr)
+      constructor <;> simp_all [scan_append, scanStep]
+    · constructor <;> simp_all
+  case tickAcquire =>
+    split at hs
+    · rename_i hc; simp [presenceMuFree] at hc
+      split at hs <;> cases hs
+      · constructor <;> simp_all
+      · rename_i hncl
+        have hw : s.w = .none := by
+          by_cases hw : s.w = .none
+          · exact hw
+          · exact absurd (hcl.mpr hw) hncl
+        constructor <;> simp_all [wEarly]
+    · cases hs
+  case tickAliveStart =>
+    split at hs <;> cases hs
+    rename_i hc; simp at hc
+    have hcs' := hcs.mpr (hreg.mp hc.2)
+    have hwe := htk (by simp [hc.1])
+    have hnds : (scan s.log).seenDS = false := by
+      cases hd : (scan s.log).seenDS
+      · rfl
+      · have := hds.mp hd; rcases this with h | h <;> simp [h, wEarly] at hwe
+    constructor <;> simp_all [scan_append, scanStep]
+  case tickAliveEnd =>
+    split at hs <;> cases hs
+    rename_i hc
+    have hcs' := hcs.mpr (hreg.mp (htkreg hc))
+    have hwe := htk (by simp [hc])
+    have hnds : (scan s.log).seenDS = false := by
+      cases hd : (scan s.log).seenDS
+      · rfl
+      · have := hds.mp hd; rcases this with h | h <;> simp [h, wEarly] at hwe
+    constructor <;> simp_all [scan_append, scanStep]
+  case tickRelease =>
+    split at hs <;> cases hs
+    constructor <;> simp_all
+  case shutdownSnapshot =>
+    split at hs <;> cases hs
+    constructor <;> simp_all
+  case shutdownDone =>
+    split at hs
+    · split at hs <;> cases hs
+      constructor <;> simp_all
+    · cases hs
+
+theorem run_inv : ∀ (ls : List Label) (s s' : St), Inv s → run s ls = some s' → Inv s'
+  | [], s, s', h, hr => by simp [run] at hr; subst hr; exact h
+  | l :: ls, s, s', h, hr => by
+    simp only [run] at hr
+    split at hr
+    · rename_i s1 h1; exact run_inv ls s1 s' (step_inv s s1 l h h1) hr
+    · cases hr
+
+/-- `callbacks` (ordering part): in every interleaving the callback log satisfies the executable
+predicate `scan … .ok`: the connect callback starts at most once and before any alive / unsubscribe
+/ disconnect callback; the disconnect callback starts at most once and only after the connect
+callback completed; no alive callback starts or is still running once the disconnect callback
+started. -/
+theorem callbacks (ls : List Label) (s : St) (hr : run {} ls = some s) : (scan s.log).ok = true :=
+  (run_inv ls {} s inv_init hr).ok
+
+theorem foldl_flags : ∀ (log : List Ev) (a : Scan),
+    ((log.foldl scanStep a).seenDS = (a.seenDS || decide (Ev.discStart ∈ log))) ∧
+    ((log.foldl scanStep a).seenCE = (a.seenCE || decide (Ev.connectEnd ∈ log))) ∧
+    ((log.foldl scanStep a).seenCS = (a.seenCS || decide (Ev.connectStart ∈ log)))
+  | [], a => by simp
+  | e :: l, a => by
+    have ih := foldl_flags l (scanStep a e)
+    simp only [List.foldl_cons]
+    rw [ih.1, ih.2.1, ih.2.2]
+    cases e <;> simp [scanStep, Bool.or_assoc]
+
+theorem foldl_ok_mono : ∀ (log : List Ev) (a : Scan), (log.foldl scanStep a).ok = true → a.ok = true
+  | [], a, h => by simpa using h
+  | e :: l, a, h => by
+    have := foldl_ok_mono l (scanStep a e) (by simpa using h)
+    cases e <;> simp [scanStep] at this <;> simp [this]
+
+/-- `ok` means: wherever an event sits in the log, its precondition held on the prefix before it -/
+theorem ok_split (l1 : List Ev) (e : Ev) (l2 : List Ev) (h : (scan (l1 ++ e :: l2)).ok = true) :
+    (scanStep (scan l1) e).ok = true := by
+  have : scan (l1 ++ e :: l2) = l2.foldl scanStep (scanStep (scan l1) e) := by
+    simp [scan, List.foldl_append]
+  rw [this] at h
+  exact foldl_ok_mono l2 _ h
+
+theorem ok_prefix (l1 l2 : List Ev) (h : (scan (l1 ++ l2)).ok = true) : (scan l1).ok = true := by
+  have : scan (l1 ++ l2) = l2.foldl scanStep (scan l1) := by simp [scan, List.foldl_append]
+  rw [this] at h
+  exact foldl_ok_mono l2 _ h
+
+theorem seenCS_iff (l : List Ev) : (scan l).seenCS = true ↔ Ev.connectStart ∈ l := by
+  have := (foldl_flags l {}).2.2; simp [scan, this]
+theorem seenCE_iff (l : List Ev) : (scan l).seenCE = true ↔ Ev.connectEnd ∈ l := by
+  have := (foldl_flags l {}).2.1; simp [scan, this]
+theorem seenDS_iff (l : List Ev) : (scan l).seenDS = true ↔ Ev.discStart ∈ l := by
+  have := (foldl_flags l {}).1; simp [scan, this]
+
+/-- reading of `callbacks`, 1: the connect callback starts at most once -/
+theorem connect_at_most_once (ls : List Label) (s : St) (hr : run {} ls = some s)
+    (l1 l2 : List Ev) (hl : s.log = l1 ++ Ev.connectStart :: l2) : Ev.connectStart ∉ l1 := by
+  have hok := (run_inv ls {} s inv_init hr).ok
+  rw [hl] at hok
+  have h := ok_split l1 _ l2 hok
+  simp [scanStep] at h
+  intro hm
+  have := (seenCS_iff l1).mpr hm
+  simp [this] at h
+
+/-- reading of `callbacks`, 3: the disconnect callback starts at most once, only after the connect
+callback completed, and no alive callback starts or ends after it started -/
+theorem disconnect_discipline (ls : List Label) (s : St) (hr : run {} ls = some s)
+    (l1 l2 : List Ev) (hl : s.log = l1 ++ Ev.discStart :: l2) :
+    Ev.discStart ∉ l1 ∧ Ev.connectEnd ∈ l1 ∧ Ev.aliveStart ∉ l2 ∧ Ev.aliveEnd ∉ l2 ∧ Ev.discStart ∉ l2 := by
+  have hok := (run_inv ls {} s inv_init hr).ok
+  rw [hl] at hok
+  have h := ok_split l1 _ l2 hok
+  simp [scanStep] at h
+  have hce := (seenCE_iff l1).mp h.1.2
+  have hnd : Ev.discStart ∉ l1 := by
+    intro hm; have := (seenDS_iff l1).mpr hm; simp [this] at h
+  have aux : ∀ e : Ev, (∀ a : Scan, a.seenDS = true → (scanStep a e).ok = false) → e ∉ l2 := by
+    intro e hbad hmem
+    obtain ⟨a, b, hab⟩ := List.append_of_mem hmem
+    have hre : l1 ++ Ev.discStart :: l2 = (l1 ++ Ev.discStart :: a) ++ e :: b := by rw [hab]; simp
+    rw [hre] at hok
+    have h2 := ok_split _ _ b hok
+    have hds : (scan (l1 ++ Ev.discStart :: a)).seenDS = true := (seenDS_iff _).mpr (by simp)
+    rw [hbad _ hds] at h2
+    cases h2
+  refine ⟨hnd, hce, aux _ ?_, aux _ ?_, aux _ ?_⟩ <;> intro a ha <;> simp [scanStep, ha]
+
+/-- reading of `callbacks`, 2: every alive / unsubscribe / disconnect callback event is preceded
+by the start of the connect callback -/
+theorem connect_first (ls : List Label) (s : St) (hr : run {} ls = some s)
+    (l1 l2 : List Ev) (e : Ev) (hl : s.log = l1 ++ e :: l2)
+    (he : e ≠ .connectStart) : Ev.connectStart ∈ l1 := by
+  have hok := (run_inv ls {} s inv_init hr).ok
+  rw [hl] at hok
+  have h := ok_split l1 _ l2 hok
+  have hok1 := ok_prefix l1 (e :: l2) hok
+  -- connectEnd ∈ prefix ⇒ connectStart before it; discStart ∈ prefix ⇒ connectEnd before it
+  have ce_cs : ∀ l, (scan l).ok = true → Ev.connectEnd ∈ l → Ev.connectStart ∈ l := by
+    intro l hl hm
+    obtain ⟨a, b, hab⟩ := List.append_of_mem hm
+    rw [hab] at hl
+    have := ok_split a _ b hl
+    simp [scanStep] at this
+    rw [hab]; simp; left; exact (seenCS_iff a).mp this.2
+  have ds_cs : ∀ l, (scan l).ok = true → Ev.discStart ∈ l → Ev.connectStart ∈ l := by
+    intro l hl hm
+    obtain ⟨a, b, hab⟩ := List.append_of_mem hm
+    rw [hab] at hl
+    have h2 := ok_split a _ b hl
+    simp [scanStep] at h2
+    have := ce_cs a (ok_prefix a _ hl) ((seenCE_iff a).mp h2.1.2)
+    rw [hab]; simp; left; exact this
+  cases e <;> simp [scanStep] at h
+  · exact absurd rfl he
+  · exact (seenCS_iff l1).mp h.2
+  · exact (seenCS_iff l1).mp h.1.2
+  · exact (seenCS_iff l1).mp h.1.2
+  · exact ce_cs l1 hok1 ((seenCE_iff l1).mp h.1.2)
+  · exact ds_cs l1 hok1 ((seenDS_iff l1).mp h.2)
+  · exact (seenCS_iff l1).mp h.2
+
+/-- `shutdown_final_partial`: when `Node.Shutdown` has completed and the connection was registered
+in the hub when the shutdown took its snapshot, the connection is closed — and stays closed in
+every continuation (it can never become connected again).
+(Hypothesis: the client was in the hub at the snapshot; without it the statement is false, see
+`connect_after_shutdown`.) -/
+theorem shutdown_final_partial (ls1 ls2 : List Label) (s1 s : St)
+    (hr1 : run {} ls1 = some s1) (hs1 : s1.shut = .snapshotTaken true)
+    (hr : run s1 ls2 = some s) (hd : s.shut = .done) :
+    s.status = .closed ∧ ∀ ls3 s3, run s ls3 = some s3 → s3.status = .closed := by
+  have mono : ∀ (ls : List Label) (a b : St), Inv a → run a ls = some b → a.status = .closed → b.status = .closed := by
+    intro ls
+    induction ls with
+    | nil => intro a b _ h hc; simp [run] at h; subst h; exact hc
+    | cons l ls ih =>
+      intro a b hinv h hc
+      simp only [run] at h
+      split at h
+      · rename_i a1 h1
+        apply ih a1 b (step_inv a a1 l hinv h1) h
+        have hincb := hinv.incb
+        cases l <;> simp only [step] at h1 <;> (repeat' split at h1) <;> (try cases h1) <;> simp_all
+      · cases h
+  have hshut : ∀ (ls : List Label) (x y : St), run x ls = some y → x.shut = .done → y.shut = .done := by
+    intro ls
+    induction ls with
+    | nil => intro x y h hx; simp [run] at h; subst h; exact hx
+    | cons l ls ih2 =>
+      intro x y h hx
+      simp only [run] at h
+      split at h
+      · rename_i x1 hx1
+        apply ih2 x1 y h
+        cases l <;> simp only [step] at hx1 <;> (repeat' split at hx1) <;> (try cases hx1) <;> simp_all
+      · cases h
+  have key : ∀ (ls : List Label) (a b : St), Inv a → run a ls = some b → a.shut = .snapshotTaken true →
+      (b.shut = .snapshotTaken true ∨ (b.shut = .done ∧ b.status = .closed)) := by
+    intro ls
+    induction ls with
+    | nil => intro a b _ h hc; simp [run] at h; subst h; exact Or.inl hc
+    | cons l ls ih =>
+      intro a b hinv h hc
+      simp only [run] at h
+      split at h
+      · rename_i a1 h1
+        have hinv1 := step_inv a a1 l hinv h1
+        have h1' : a1.shut = .snapshotTaken true ∨ (a1.shut = .done ∧ a1.status = .closed) := by
+          cases l <;> simp only [step] at h1 <;> (repeat' split at h1) <;> (try cases h1) <;> simp_all
+        rcases h1' with h1' | h1'
+        · exact ih a1 b hinv1 h h1'
+        · exact Or.inr ⟨hshut ls a1 b h h1'.1, mono ls a1 b hinv1 h h1'.2⟩
+      · cases h
+  have hinv1 := run_inv ls1 {} s1 inv_init hr1
+  have hc : s.status = .closed := by
+    rcases key ls2 s1 s hinv1 hr hs1 with h | h
+    · rw [h] at hd; cases hd
+    · exact h.2
+  exact ⟨hc, fun ls3 s3 h3 => mono ls3 s s3 (run_inv ls2 s1 s hinv1 hr) h3 hc⟩
+
+/-- counter-witness (findings C08-1…4): the shutdown takes its snapshot while the client is not
+yet in the hub; after `Shutdown` has returned the connect command still goes through and the
+connection becomes connected. -/
+theorem connect_after_shutdown :
+    ∃ s, run {} [.shutdownSnapshot, .shutdownDone, .connectCmdOk 0, .triggerAcquire, .triggerEnd] = some s ∧
+      s.shut = .done ∧ s.status = .connected := ⟨_, rfl, by decide, by decide⟩
+
+/-! non-vacuity -/
+example : ∃ s, run {} [.connectCmdOk 1, .triggerAcquire, .triggerEnd, .subscribe, .tickAcquire, .tickAliveStart,
+    .closeTry, .tickAliveEnd, .tickRelease, .wAcquirePresence, .wRemove, .wCb, .wRemove, .wCb, .wDisc, .wDiscEnd] = some s ∧
+    s.log = [.connectStart, .connectEnd, .aliveStart, .aliveEnd, .unsub 0, .unsub 1, .discStart, .discEnd] :=
+  ⟨_, rfl, by decide⟩
+example : ∃ s1 s, run {} [.connectCmdOk 0, .triggerAcquire, .triggerEnd, .shutdownSnapshot] = some s1 ∧
+    s1.shut = .snapshotTaken true ∧ run s1 [.closeTry, .shutdownDone] = some s ∧ s.shut = .done :=
+  ⟨_, _, rfl, by decide, rfl, by decide⟩
+
+end CentrifugeVerif.Lifecycle
